@@ -304,6 +304,13 @@ def rule_helpers(ctx: Ctx, rep: Report) -> None:
     rep.ob(rule, "ext:op_checksig", okx, oc.where(), f"ext = {norm(ext[0].value) if ext else None}")
     ae = ctx.func(f"{SH}.taproot_annex_and_ext")
     ext2 = [n for n in own_nodes(ae.node) if isinstance(n, ast.Assign) and norm(n.targets[0]) == "ext" and not isinstance(n.value, ast.Constant)]
+    # the two annex splitters (sighash side and engine side) apply one rule: >= 2 elements and first byte 0x50
+    for q, subj in ((f"{SH}.taproot_annex_and_ext", "stack"), ("btclib.script.engine.taproot_get_annex", "witness.stack")):
+        fa = ctx.func(q)
+        tests = [n.test for n in own_nodes(fa.node) if isinstance(n, ast.If) and "b'P'" in norm(n.test)]
+        okx = bool(tests) and isinstance(tests[0], ast.BoolOp) and isinstance(tests[0].op, ast.And) and norm(tests[0].values[0]) in (f"len({subj}) >= 2", f"len({subj}) > 1") \
+            and norm(tests[0].values[1]) == f"{subj}[-1][:1] == b'P'"
+        rep.ob(rule, f"annex_rule:{fa.name}", okx, fa.where(), f"annex iff {norm(tests[0]) if tests else None}")
     v = None
     if ext2 and isinstance(ext2[0].value, ast.BinOp):
         v = ctx.fold(ext2[0].value.right, ae.module)
@@ -432,6 +439,51 @@ def rule_one_implementation(ctx: Ctx, rep: Report) -> None:
         rep.ob(rule, f"{q}->{callee}", bool(ctx.calls_to(fi, f"{SH}.{callee}")), fi.where(), f"calls sig_hash.{callee}")
 
 
+def rule_view_copies(ctx: Ctx, rep: Report) -> None:
+    """C09.view_copies: what the streamed view memoizes to compute digests never
+    leaves it except as a deep copy, so a caller cannot change what the view signs."""
+    rule = "C09.view_copies"
+    ci = ctx.cls("btclib.psbt.psbt_view.PsbtView")
+    getters = set()
+    for name, m in ci.methods.items():
+        ifs = [n for n in m.node.body if isinstance(n, ast.If) and isinstance(n.test, ast.Compare) and isinstance(n.test.ops[0], ast.Is)
+               and isinstance(n.test.left, ast.Attribute) and norm(n.test.left.value) == "self" and isinstance(n.test.comparators[0], ast.Constant) and n.test.comparators[0].value is None]
+        rets = [n for n in m.node.body if isinstance(n, ast.Return)]
+        if ifs and rets and norm(rets[-1].value) == norm(ifs[0].test.left):
+            getters.add(name)
+    if len(getters) < 2:
+        raise AnalysisError(f"PsbtView memo getters not recognised: {sorted(getters)}")
+    DIGEST = {"_ecdsa_sig_hash", "_taproot_sig_hash", "_sig_hash_from_psbt_in", "legacy", "segwit_v0", "taproot", "from_tx", "PrecomputedTxData", "len"}
+    for name, m in sorted(ci.methods.items()):
+        if name.startswith("_"):
+            continue
+        tainted = set()
+        for n in own_nodes(m.node):
+            if isinstance(n, ast.Assign) and isinstance(n.value, ast.Call) and isinstance(n.value.func, ast.Attribute) and norm(n.value.func.value) == "self" and n.value.func.attr in getters:
+                tainted |= {t.id for t in n.targets if isinstance(t, ast.Name)}
+        bad = []
+        uses = 0
+        for r in (n for n in own_nodes(m.node) if isinstance(n, ast.Return) and n.value is not None):
+            for x in ast.walk(r.value):
+                hit = (isinstance(x, ast.Call) and isinstance(x.func, ast.Attribute) and norm(x.func.value) == "self" and x.func.attr in getters) or (isinstance(x, ast.Name) and x.id in tainted)
+                if not hit:
+                    continue
+                uses += 1
+                q = parent(x)
+                safe = False
+                while q is not None and not isinstance(q, ast.stmt):
+                    if isinstance(q, ast.Call) and call_name(q) in ({"deepcopy"} | DIGEST) and q is not x:
+                        safe = True
+                        break
+                    q = parent(q)
+                if not safe:
+                    bad.append(norm(r.value)[:70])
+        if uses or name in ("tx", "prevouts"):
+            rep.ob(rule, f"PsbtView.{name}", not bad, m.where(), "memoized state leaves only as a deep copy or a digest" if not bad else
+                   f"returns (part of) the view's memoized object: {bad[0]}: editing the returned transaction changes what the view hashes next")
+    rep.floor(rule, 2)
+
+
 RULES = [
     ("C09.bip341", rule_bip341),
     ("C09.bip143", rule_bip143),
@@ -439,6 +491,7 @@ RULES = [
     ("C09.legacy", rule_legacy),
     ("C09.refusals", rule_refusals),
     ("C09.one_implementation", rule_one_implementation),
+    ("C09.view_copies", rule_view_copies),
 ]
 
 CONTROLS = [
@@ -454,6 +507,10 @@ CONTROLS = [
      "edit": lambda ctx: M.sub_expr(ctx, f"{SH}._serialized_camount", lambda n: isinstance(n, ast.keyword) and n.arg == "signed", "signed=False")},
     {"rule": "C09.helpers", "name": "sha_sequences computed from the outputs", "module": SH,
      "edit": lambda ctx: M.sub_expr(ctx, f"{SH}.PrecomputedTxData.__init__", lambda n: isinstance(n, ast.Call) and call_name(n) == "_serialized_sequences", "_serialized_outputs(tx)")},
+    {"rule": "C09.helpers", "name": "annex needs three witness elements on the sighash side", "module": SH,
+     "edit": lambda ctx: M.sub_expr(ctx, f"{SH}.taproot_annex_and_ext", M.is_text("len(stack) >= 2"), "len(stack) > 2")},
+    {"rule": "C09.view_copies", "name": "PsbtView.prevouts hands out its memoized list", "module": "btclib.psbt.psbt_view",
+     "edit": lambda ctx: M.sub_expr(ctx, "btclib.psbt.psbt_view.PsbtView.prevouts", lambda n: isinstance(n, ast.Call) and call_name(n) == "deepcopy", "list(self._spent())")},
     {"rule": "C09.legacy", "name": "NONE keeps the other sequences", "module": SH,
      "edit": lambda ctx: M.sub_expr(ctx, f"{SH}.legacy", lambda n: isinstance(n, ast.Expr) and "_zero_other_sequences" in norm(n), "pass")},
     {"rule": "C09.refusals", "name": "taproot SINGLE without output no longer refused", "module": SH,
